@@ -352,6 +352,17 @@ func main() {
 	sem := make(chan struct{}, 8)
 	var rmu sync.Mutex
 	for i, j := range jobs {
+		if i == len(jobs)/2 {
+			// the sessions of the second half relay through encoders whose process-wide buffer pools have passed
+			// their self-calibration point (the state of a proxy after a few minutes of traffic)
+			for k := 0; k < cap(sem); k++ {
+				sem <- struct{}{}
+			}
+			codecx.WarmPools()
+			for k := 0; k < cap(sem); k++ {
+				<-sem
+			}
+		}
 		wg.Add(1)
 		sem <- struct{}{}
 		go func() {
